@@ -279,6 +279,35 @@ pub fn check_c02(e: &Edge, run: &Run, acc: &mut Acc) {
     }
 }
 
+const REQ_RING: usize = 24;
+thread_local! {
+    /// the path strings this worker thread re-ran as queries most recently (a round-trip failure that depends on
+    /// earlier string queries on the same thread is only reproducible together with them)
+    static REQUERIED: std::cell::RefCell<(Vec<String>, usize)> = std::cell::RefCell::new((Vec::new(), 0));
+}
+
+fn remember_requery(p: &str) {
+    REQUERIED.with(|r| {
+        let mut r = r.borrow_mut();
+        let i = r.1 % REQ_RING;
+        if r.0.len() < REQ_RING {
+            r.0.push(p.to_string());
+        } else {
+            r.0[i].clear();
+            r.0[i].push_str(p);
+        }
+        r.1 += 1;
+    })
+}
+
+fn requery_history() -> Vec<String> {
+    REQUERIED.with(|r| {
+        let r = r.borrow();
+        let n = r.0.len();
+        (0..n).map(|k| r.0[if n < REQ_RING { k } else { (r.1 + k) % REQ_RING }].clone()).collect()
+    })
+}
+
 pub fn check_c03(e: &Edge, run: &Run, acc: &mut Acc) {
     let obs = match obs_ok(e, acc, "C03") {
         Some(v) => v,
@@ -317,6 +346,7 @@ pub fn check_c03(e: &Edge, run: &Run, acc: &mut Acc) {
                 continue;
             }
             acc.evals += 1;
+            remember_requery(p);
             let r = imp::run_with_path(p, e.doc, am);
             if r != ImplOut::Ok(vec![(*id, p.clone())]) {
                 bad_rt = Some((p.clone(), format!("running the reported path {:?} as a query returns {:?} instead of exactly that node", p, r)));
@@ -366,7 +396,9 @@ pub fn check_c03(e: &Edge, run: &Run, acc: &mut Acc) {
                 }
             }
         }
-        acc.viol(format!("{} on {}: {}", e.query_string(), e.doc, why), e.case());
+        let mut case = e.case();
+        case["requery_history"] = json!(requery_history());
+        acc.viol(format!("{} on {}: {}", e.query_string(), e.doc, why), case);
     }
 }
 
@@ -425,6 +457,13 @@ pub fn plans(prop: &str, thorough: bool) -> Vec<Plan> {
             label: "panel P x full unions, depth 3",
         });
     }
+    v.push(Plan {
+        docs: docs::deep_docs(thorough),
+        alpha: AlphaSize::Singles,
+        max_names: 4,
+        params: BfsParams { lmax: 8, max_depth: if thorough { 2 } else { 1 }, max_states: 40 },
+        label: "documents deeper than a parser accepts (127..129, thorough 3..160, wrappers around a branching core) x single-selector segments, depth 1 (2)",
+    });
     if prop == "C03" {
         v.push(Plan {
             docs: docs::names_universe(thorough),
@@ -658,6 +697,15 @@ pub fn replay_edge(case: &Value, run: &Run) -> Acc {
     use jsonpath_rust::parser::model::JpQuery;
     let mut acc = Acc::new();
     let doc = &case["doc"];
+    // the string queries the worker thread had run before the failing round trip (same document: what matters for
+    // state keyed on query text is the text)
+    if let Some(h) = case["requery_history"].as_array() {
+        let am0 = AddrMap::new(doc);
+        for q in h.iter().filter_map(|x| x.as_str()) {
+            let _ = imp::run_with_path(q, doc, &am0);
+        }
+        println!("replayed {} earlier path queries of the worker thread", h.len());
+    }
     let prefix = case["prefix"].as_str().unwrap_or("$");
     let action = case["action"].as_str().unwrap_or("");
     let pq = rfc_parse(prefix).expect("replay prefix").0;
